@@ -1016,8 +1016,49 @@ func (c *DefaultCtx) Method(override ...string) string {
 		// Provided override does not valid HTTP method, no override, return current method
 		return c.app.method(c.methodInt)
 	}
-	c.methodInt = methodInt
+	if methodInt != c.methodInt {
+		from := c.methodInt
+		c.methodInt = methodInt
+		// Keep routing behind the current middleware
+		c.syncIndexRouteMethod(from)
+	}
 	return method
+}
+
+// syncIndexRouteMethod re-derives the route cursor after the method was overridden inside a handler.
+// Every method has its own route tree, so the numeric index of the current route points at an
+// unrelated route of the new method's tree as soon as a method specific route precedes it in either
+// tree. A middleware registered with Use is part of every method's tree, in the same order:
+// continue behind the new tree's copy of the current middleware.
+func (c *DefaultCtx) syncIndexRouteMethod(from int) {
+	if c.route == nil || !c.route.use || from < 0 || from >= len(c.app.treeStack) ||
+		c.methodInt < 0 || c.methodInt >= len(c.app.treeStack) {
+		return
+	}
+	oldTree, ok := c.app.treeStack[from][c.treePathHash]
+	if !ok {
+		oldTree = c.app.treeStack[from][0]
+	}
+	newTree, ok := c.app.treeStack[c.methodInt][c.treePathHash]
+	if !ok {
+		newTree = c.app.treeStack[c.methodInt][0]
+	}
+	// number of middlewares up to and including the current one
+	n := 0
+	for i := 0; i <= c.indexRoute && i < len(oldTree); i++ {
+		if oldTree[i].use {
+			n++
+		}
+	}
+	// the same number of middlewares in the new tree
+	index := -1
+	for i := 0; n > 0 && i < len(newTree); i++ {
+		if newTree[i].use {
+			n--
+			index = i
+		}
+	}
+	c.indexRoute = index
 }
 
 // MultipartForm parse form entries from binary.
